@@ -303,6 +303,9 @@ inductive Call
   | crc9Parts (form : BufForm) (data : Bits) (sn mask : Nat) (crc32 : Option Bytes)
   /-- the date of `GPSData.from_bytes`: six ASCII digits day, month, two-digit year -/
   | gpsDate (dd mm yy : Nat)
+  /-- `<Enum of the etsi layer2 / layer3 element packages>.<member i>.as_bits()` (`cls` = `<module>.<Class>`, members in
+  definition order): a new bit array on every call, built from the member's value -/
+  | elementBits (cls : String) (i : Nat)
 deriving DecidableEq
 
 inductive Out
@@ -407,6 +410,16 @@ def stepCrc9Parts (s : S) (form : BufForm) (data : Bits) (sn mask : Nat) (crc32 
     ((stepCrcShared s 1 (crc9Source form data sn crc32) false).1,
       crc9Value mask (stepCrcShared s 1 (crc9Source form data sn crc32) false).2.1, .crc9Parts form data sn mask crc32)
 
+/-- what member `i` of element class `cls` serialises to (`Gen.PurityInit.elementBits`, read from the imported package every
+run): its bits, or the exception `as_bits` raises for it (`SyncPatterns.EmbeddedSignalling = -1`) -/
+def elementOut (cls : String) (i : Nat) : Out :=
+  match Gen.PurityInit.elementBits.find? (fun e => e.1 == cls) with
+  | none => .err "no-such-element"
+  | some e =>
+    match e.2[i]? with
+    | none => .err "no-such-member"
+    | some (err, b) => if err == "" then .bits b else .err err
+
 /-- one call on the state, mirroring what the Python reads and writes -/
 def step (s : S) : Call → S × Out × Call
   | .crcShared k data little => stepCrcShared s k data little
@@ -431,6 +444,8 @@ def step (s : S) : Call → S × Out × Call
   | .crc9Parts form data sn mask crc32 => stepCrc9Parts s form data sn mask crc32
   -- `year=2000 + int(greenwich_date[4:6])`: a constant century, `s.importClock` is not read
   | .gpsDate dd mm yy => (s, mkDate (2000 + yy) mm dd, .gpsDate dd mm yy)
+  -- `int2ba(self.value, length=…)`: nothing of `s` is read, nothing is kept; the caller owns what it gets
+  | .elementBits cls i => (s, elementOut cls i, .elementBits cls i)
 
 /-! ## the history-free functions: no `S` anywhere -/
 
@@ -471,6 +486,7 @@ def pureOut : Call → Out
   | .tmsAsBytes more ack res ctl ty body => .bytes (tmsBytes more ack res ctl ty body)
   | .crc9Parts form data sn mask crc32 => pureCrc9Parts form data sn mask crc32
   | .gpsDate dd mm yy => mkDate (2000 + yy) mm dd
+  | .elementBits cls i => elementOut cls i
 
 /-- the buffer `check_and_correct` leaves in its argument -/
 def cacBuffer (i : Nat) (w : Bits) : Bits :=
@@ -579,6 +595,14 @@ def stepUnsafe (s : S) : Call → S × Out × Call
       (r.1, r.2.1, .crc9Parts form grown sn mask crc32)
     else r
   | .gpsDate dd mm yy => (s, mkDate (s.importClock / 100 * 100 + yy) mm dd, .gpsDate dd mm yy)
+  | c => step s c
+
+/-- a third hazard that is NOT in the code: the members of an element Enum (process-wide singletons) keep the bit array they
+hand out - built once, when the class is created - and `as_bits` returns that stored object.  `store cls i` is what member `i`
+holds NOW: whatever a caller wrote into a buffer it was handed earlier. -/
+def stepStored (store : String → Nat → Option Bits) (s : S) : Call → S × Out × Call
+  | .elementBits cls i =>
+    (s, (match store cls i with | some b => .bits b | none => elementOut cls i), .elementBits cls i)
   | c => step s c
 
 end Dmr.Purity
